@@ -20,6 +20,13 @@ rdcord2cards (the twelve numbers per card exactly, and the final dictionary thro
 written texts and on independently rendered GRID / CORD2x files; rddmig is compared frame by frame with the frame the
 Lean model assembles (DmigRead.frame).
 
+Further model files: Model/BulkDmigX.lean (rddmig expanded / square: stream rddmig-options), Model/BulkMulti.lean (files
+holding the cards of several readers: stream multi-file, the model's FileOK decision on every generated file),
+Model/BulkReal.lean (real fields through C12's exact float formatting: streams real-fields, wtdmig-real),
+Model/BulkUset.lean (uset2bulk / bulk2uset at the table level: streams uset-table-write / uset-table-read),
+Model/BulkFmt.lean + Generated/BulkFormats.lean (translator harness/translate/c13_bulkformats.py: the writers' format
+strings, widths, items per line, continuation markers, the reader's slicing constants).
+
 The model-free oracle restates the property on the API: read(write(x)) == x for every pair, including
 GRID / CORD2x / uset2bulk / bulk2uset and real / complex DMIG with non-integer values.  Coordinate values
 are drawn with mixed magnitudes (up to ~12 decades on one card, tiny non-zero components next to large
@@ -66,36 +73,49 @@ THEOREMS = [
     ).split()
 ]
 TRUSTED = [
-    "correspondence harness harness/props/c13.py (exact text; number fields as exact decimals)",
-    "CPython str.format for '{:8d}', '{:<8s}', '{:>8}', '{:16.9E}' (integer rendering `dec` = Lean `toString`; "
-    "the %E rendering of integer-valued doubles |v| < 1e9 is modelled by `fmtE9` and correspondence-checked)",
-    "numeric field values (format_float8/16, '{:16.9E}' of non-integers, the `form` of wtgrids / wttabled1, '{:16.8e}' of "
-    "wtcoordcards, float()) belong to C12: the harness formats them with the card's own format string and hands them to the "
-    "model as opaque tokens, the theorems say the reader returns nas_sscanf(token); values are compared through the oracle "
-    "to the precision of the written format",
+    "correspondence harness harness/props/c13.py (exact text; number fields as exact decimals) and the translator "
+    "harness/translate/c13_bulkformats.py (Python ast, no execution of repo code)",
+    "CPython str.format for '{:8d}', '{:<8s}', '{:>8}' (integer rendering `dec` = Lean `toString`; padding = `padL` / `padR`); "
+    "CPython's float formatting '%.pE' / '%.pe' / '%.pf' is C12's bit-exact model Model/PyFloat.lean (fmtE, fmtF: correctly "
+    "rounded on the exact binary value), tied here by the exact-text stream real-fields (every decade, three-digit "
+    "exponents, subnormals, values that round to the next power of ten) and by wtdmig-real",
+    "user-supplied `form` strings of wtgrids / wttabled1 other than the defaults are formatted by Python and handed to the "
+    "model as opaque tokens (the theorems then say the reader returns nas_sscanf(token)); the default formats '{:16.8f}', "
+    "'{:16.9E}{:16.9E}' and the fixed '{:16.9E}' (wtdmig), '{:16.8e}' (wtcoordcards) are modelled and proved as values",
     "text domain of the reader model: ASCII, no tabs, no 'inf'/'nan' words, no '_' inside numbers, no INCLUDE",
-    "np.allclose(m.T, m) of wtdmig is modelled as exact symmetry (correspondence uses integers |v| < 1e4, where the two coincide)",
-    "rddmig locates a cell by np.searchsorted on 10*id+dof, the model by label equality (the same for DOF 0..9); pandas "
-    "MultiIndex / DataFrame construction around the assembled matrix",
+    "np.allclose(m.T, m) of wtdmig is modelled as exact symmetry (the streams use exactly symmetric or clearly "
+    "asymmetric matrices; symmetric-within-allclose-only inputs are skipped and counted)",
+    "rddmig locates a cell by np.searchsorted on 10*id+dof, the model by label equality (the same for DOF 0..9 and labels "
+    "that are in the index: expanded=True therefore asks that an id is used either as a scalar point or as a grid); pandas "
+    "MultiIndex / DataFrame construction around the assembled matrix; the dmig_names filter argument is not modelled",
     "vecwrite arguments are Python scalars, lists, tuples or 1-d numpy arrays (np.ndim == 2 matrices and 0-d arrays are not "
     "used by the C13 writers)",
-    "wtcoordcards' noise floor (values below 1e-15 of the card's largest are written as 0) is applied by the harness before "
-    "formatting the nine tokens; n2p.mkcordcardinfo / build_coords / addgrid geometry is C14 (rdcord2cards is compared "
-    "through the real build_coords applied to the model's rows)",
+    "wtcoordcards' noise floor (values below 1e-15 of the card's largest are written as 0; the constant is checked by the "
+    "translator) is applied by the harness before the nine values are handed over; n2p.mkcordcardinfo / build_coords / "
+    "addgrid geometry is C14 (rdcord2cards is compared through the real build_coords applied to the model's rows); the "
+    "ORDER of the cards of uset2bulk is the dictionary order of the real mkcordcardinfo",
+    "USET tables are read entry by entry by the harness (a grid = six consecutive rows DOF 1..6, a scalar point = one row "
+    "DOF 0); np.argsort of distinct grid ids = ascending order; n2p.mkusetmask()['b'] = the constant of C18's generated table",
+    "C12's lemma files about fmtE / fmtF (Lemmas/PyFloatLog, NasFloatSci, NasFloatRat, PyFloatStr) are imported read-only; "
+    "through them the C13 closure contains C12's Generated/NasFloatTables.lean (not used by any C13 statement)",
 ]
 RULE = (
     "id lists built from run structures (singletons, runs of 2..12, line-filling lengths 0..40, unsorted and "
     "repeated ids, 1..8 digit ids), every start field 1..10, SET max_length 24..72 and short widths that force "
-    "token splits, TABLED1 with 0..13 points in four formats and both widths, DMIG with grid/scalar partial-DOF "
-    "index sets, forms 1/2/6/9, types 1-4; vecwrite with 1..5 arguments, each a scalar, a length-1 / length-N / "
-    "other-length list, tuple or array in every order (ValueError and IndexError cases included); wtgrids with 1..9 "
-    "grids, seven formats (8 and 16 wide), cp / cd / ps / seid scalar, length-1 vector, length-N vector or '' and "
-    "xyz with 1 row, N rows or a wrong number of rows; wtcoordcards with 1..3 systems of mixed magnitude; uset2bulk of "
-    "generated USET tables with 0..3 coordinate systems; reader variants re-render the same cards in fixed-8 / "
-    "fixed-16 / comma form with random continuation markers, comments, blank lines, case and spacing (GRID cards "
-    "of different length, CORD2x cards with 11, 12, 13 fields, words, near-miss names). A case is one "
-    "(writer or reader, input) pair; non-trivial = the text has more than one physical line, a THRU, a wrap, "
-    "a continuation, a vector argument or a non-default form; distinct by the canonical input"
+    "token splits (oracle: every max_length 2..26 x six id lists, round trip iff every token fits), TABLED1 with 0..13 "
+    "points in four formats and both widths, DMIG with grid/scalar partial-DOF index sets, forms 1/2/6/9, types 1-4, "
+    "integer AND real / complex values of 60 decades, read plain and with expanded / square / both; vecwrite with 1..5 "
+    "arguments, each a scalar, a length-1 / length-N / other-length list, tuple or array in every order (ValueError and "
+    "IndexError cases included); wtgrids with 1..9 grids, seven formats (8 and 16 wide), cp / cd / ps / seid scalar, "
+    "length-1 vector, length-N vector or '' and xyz with 1 row, N rows or a wrong number of rows; wtcoordcards with 1..3 "
+    "systems of mixed magnitude; uset2bulk of generated USET tables with 0..3 coordinate systems, also with scalar points "
+    "and grids out of id order; single real fields over every decade incl. three-digit exponents, zero, -0.0, subnormals, "
+    "values rounding to the next power of ten; files that interleave the cards of up to eight writers with comments, "
+    "foreign cards, empty lines and SET statements; reader variants re-render the same cards in fixed-8 / fixed-16 / comma "
+    "form with random continuation markers, comments, blank lines, case and spacing (GRID cards of different length, "
+    "CORD2x cards with 11, 12, 13 fields, words, near-miss names, SET statements with EXCEPT). A case is one (writer or "
+    "reader, input) pair; non-trivial = the text has more than one physical line, a THRU, a wrap, a continuation, a "
+    "vector argument or a non-default form; distinct by the canonical input"
 )
 ASSUMPTIONS = [
     "wtcoordcards zeroes values below 1e-15 of the largest value on the card (documented noise floor): coordinate "
@@ -112,49 +132,71 @@ ASSUMPTIONS = [
     "DMIG row labels are duplicate-free and column labels are duplicate-free (pandas allows duplicates; the reader then "
     "keeps the last term: shown by example in Props/C13Dmig.lean), DOF are 0..9",
     "wtgrids / vecwrite with no grid at all raise IndexError (modelled, not part of the round trip)",
+    "a real value is 'representable in the field' when its text in the writer's own format is not longer than the field "
+    "('%.9E' of a NEGATIVE double with a three-digit exponent is 17 characters: reported as a finding, excluded from the "
+    "value theorems by their fit hypothesis)",
+    "rddmig(expanded=True): every id referenced on the DMIG is used either as a scalar point (DOF 0) or as a grid (DOF "
+    "1..6) throughout, form-9 column numbers are >= 1 and the header NCOL is an integer",
+    "files read by several readers: the line after a card is not a continuation line of that card's syntax (a line of "
+    "blanks after an 8-wide card IS one for _rdfixed); SET statements stand before BEGIN BULK; DMIG matrices in one file "
+    "carry different names",
+    "wtset: max_length >= 2 (max_length = 1 with a longer token does not terminate: _wrap_text_lines cuts pieces of length 0)",
+    "USET tables handed to uset2bulk: grid ids distinct; bulk2uset puts every DOF in the b-set and sorts by id, uset2bulk "
+    "does not write scalar points (documented: 'CORD2* and GRID cards')",
 ]
 PARTIAL = (
-    "the decimal rendering and parsing of a single REAL field (parse(format(x)) ~ x) is not proved here (C12's domain): "
-    "coordinates, table values and DMIG terms enter the theorems as opaque written fields and the theorems say the reader "
-    "returns nas_sscanf(field) (`nasScan`; `enc` in the DMIG theorems) — integer fields are proved exactly "
-    "(int_field_roundtrip); the DMIG theorems on physical lines (dmig_lines_cards, dmig_text_roundtrip) cover integer-valued "
-    "terms with at most 10 digits (the model's `fmtE9` renders exactly those; other values are compared through the oracle) "
-    "and a name that nas_sscanf returns unchanged; "
-    "set_roundtrip assumes max_length >= the longest token (shorter max_length splits tokens: writer text is "
-    "correspondence-checked, no round trip claimed); rdcord2cards is modelled up to the twelve numbers per card handed to "
-    "n2p.build_coords and bulk2uset up to the arrays handed to n2p.addgrid (geometry: C14; tied through the real "
-    "build_coords and by the round-trip oracle); rddmig(expanded=True / square=True) and the op2 path are oracle-only"
+    "wtset with a max_length shorter than a token: the converse of set_roundtrip (a split token makes the round trip "
+    "fail) is not proved in Lean — the exact condition 'round trip iff every token fits' is checked model-free on the real "
+    "code for every max_length 2..26 and by the exact-text stream of the split lines; user-supplied `form` strings of "
+    "wtgrids / wttabled1 other than the defaults stay opaque tokens (reader returns nas_sscanf(token)); rdcord2cards is "
+    "modelled up to the twelve numbers per card handed to n2p.build_coords and bulk2uset up to the labels (id, dof, "
+    "nasset, cd id and type) and the written coordinates — the geometry of build_coords / addgrid is C14 (tied through the "
+    "real build_coords and the round-trip oracle); FileOK (hypothesis of readers_independent) is proved for a concrete "
+    "file and checked by the model on every generated file, not derived for all written files; the op2 path of rddmig "
+    "and its dmig_names filter are oracle-only / not modelled"
 )
 MANIFEST = {
     "level_text": "Proof (Lean 4, kernel-checked, standard axioms only) about an exact, character-level model of the bulk-data "
     "writers and readers. Proved for all inputs: THRU compression is inverted by expansion and emits THRU exactly for "
     "maximal runs; wtnasints lays any list out from any start field within 72 columns; rdspoints(wtspoints(ids)) = ids, "
-    "rdcsupers(wtcsuper(id, grids)) = {id: [id, 0, grids]} and rdextrn(wtextrn(ids, dof)) = the pairs, on physical lines; a written integer field is read back exactly (int(format(n)) = n, any "
-    "padding); rdsets(wtset(id, ids, max_length)) = {id: ids} on physical lines for every non-empty list of non-negative "
-    "ids and every max_length >= the longest token, and for ANY way of breaking the tokens into lines (the regular "
-    "expressions of rdsets are modelled as explicit scanners); rdtabled1(wttabled1(...)) on physical lines for every "
-    "number of points >= 0 and both widths (comment stripping, rstrip, column slicing, line padding, ENDT); DMIG: card "
-    "structure, form 6 iff identical index lists and mirrored matrix, the reader's assignments are EXACTLY the non-zero "
-    "terms (both directions, mirror included), and rddmig(wtdmig(X)) = X as one statement on the card values: sorted "
-    "duplicate-free row/column index = labels of the non-null rows/columns (union for form 6), every cell = the term (0 "
-    "for a zero term, imaginary part 0 for real types), nothing lost, for forms 1/2/6/9 and types 1-4 — and the same on "
-    "the physical lines of wtdmig (rddmig(text) returns exactly that one frame under the lower-cased name) for "
-    "integer-valued terms of at most 10 digits; writer.vecwrite: "
-    "the length rule (every argument longer than 1 has the row count, a later length-1 argument cannot reset it, two "
-    "different lengths raise) and the broadcast semantics for every packaging; wtgrids writes the text of the fully "
-    "expanded call for every packaging (scalar / length-1 / length-N, xyz 1 or N rows) and rdgrids(wtgrids(...)) returns "
-    "one row [id, cp, x, y, z, cd, ps, seid] per grid on physical lines (8 and 16 wide, short and PS/SEID forms, blank "
-    "fields as 0); rdcord2cards(wtcoordcards(ci)) gives [cid, type, ref, A, B, C] per card; uset2bulk's file is read back "
-    "by both readers of bulk2uset, neither disturbed by the other's cards. Real-valued fields are opaque written tokens "
-    "of which the theorems say the reader returns nas_sscanf(token). Tied to pyyeti/nastran/bulk.py and pyyeti/writer.py by "
-    "character-for-character correspondence of every writer and value-for-value correspondence of every reader on "
-    "written and independently rendered texts. Right level: the layer is list/column/character arithmetic, fully "
-    "provable; single real-field formats are C12, coordinate geometry C14.",
-    "level_note": "Trusted: Lean kernel; propext, Classical.choice, Quot.sound; the Python harness; CPython integer "
-    "formatting. Not proved (tied by correspondence / oracle only): parse(format(x)) of one real field (C12); DMIG text "
-    "with non-integer terms (the card-value theorems cover them through `enc`); token splitting for max_length shorter than a token; n2p.build_coords / addgrid / "
-    "mkcordcardinfo behind rdcord2cards / bulk2uset / uset2bulk (C14); rddmig(expanded / square) and op2 DMIG.",
-    "technique": "Lean 4 proof (induction over run/line/column/character structure) + exact-text differential "
+    "rdcsupers(wtcsuper(id, grids)) = {id: [id, 0, grids]} and rdextrn(wtextrn(ids, dof)) = the pairs, on physical lines; a "
+    "written integer field is read back exactly; rdsets(wtset(id, ids, max_length)) = {id: ids} on physical lines for every "
+    "non-empty list of non-negative ids (sorted or not, with repeats) and every max_length >= the longest token, for ANY "
+    "way of breaking the tokens into lines, and for any number of SET statements between other lines of one file "
+    "(sets_in_file); rdtabled1(wttabled1(...)) for every number of points and both widths; DMIG: card structure, form 6 iff "
+    "identical index lists and mirrored matrix, the reader's assignments are EXACTLY the non-zero terms, rddmig(wtdmig(X)) "
+    "= X as one statement (sorted duplicate-free index of the non-null rows/columns, every cell = the term, nothing "
+    "lost) for forms 1/2/6/9 and types 1-4 on the card values AND on the physical lines — for integer-valued and for "
+    "REAL / COMPLEX valued terms; rddmig(expanded=True) and rddmig(square=True): the options only re-index (same cells on "
+    "every card list), the expanded index is all six DOF of every referenced grid id / the single label of a scalar "
+    "point, form-9 columns 1..NCOL, form 1 with square gets the union index zero-filled and NOT mirrored, every written "
+    "term sits at its own (row id, column id) and all other positions are 0; VALUES: a written '{:w.pE}' / '{:w.pe}' / D / "
+    "'{:w.pf}' field (C12's bit-exact float formatting) is read back by nas_sscanf as exactly the decimal it shows, "
+    "within half a unit of its last digit of the value written (relative 0.5e-p for E formats, absolute 0.5e-p for f), "
+    "and on physical lines tabled1_roundtrip_values ({:16.9E}), grid_roundtrip_values ({:16.8f}), cord2_roundtrip_values "
+    "({:16.8e}), dmig_roundtrip_values ({:16.9E} / D) state the values read; files with the cards of several readers: each "
+    "reader returns exactly its own cards' content regardless of the other cards, comments and SET statements present "
+    "(readers_independent, typed for rddmig / rdgrids / rdcord2cards / rdspoints / rdcsupers / rdextrn / rdtabled1); "
+    "uset2bulk -> bulk2uset at the table level: per grid sorted by id (id, cd, type of cd), six DOF, b-set; scalar points "
+    "are not written (label-for-label identity exactly for sorted all-grid b-set tables, cd != cp included); "
+    "writer.vecwrite's length rule and broadcast semantics, wtgrids for every packaging, rdgrids(wtgrids), "
+    "rdcord2cards(wtcoordcards). The writers' format strings, field widths, items per line, continuation markers and the "
+    "reader's slicing constants are regenerated from the source by a translator; their side conditions are re-proved by "
+    "decide and the model's text is proved to BE the rendering of the extracted templates. Tied to "
+    "pyyeti/nastran/bulk.py and pyyeti/writer.py by character-for-character correspondence of every writer and "
+    "value-for-value correspondence of every reader on written, independently rendered and interleaved texts. Right "
+    "level: the layer is list/column/character arithmetic plus one rounding per real field, fully provable; coordinate "
+    "geometry is C14.",
+    "level_note": "Trusted: Lean kernel; propext, Classical.choice, Quot.sound; the Python harness and translator; CPython "
+    "integer formatting; C12's float-format model (tied again here by an exact-text stream). Not proved (tied by "
+    "correspondence / oracle only): that a token of wtset cut by a short max_length breaks the round trip (the converse "
+    "direction of set_roundtrip; the oracle checks the iff for max_length 2..26); user-supplied `form` strings other than "
+    "the defaults (opaque tokens); n2p.build_coords / addgrid / mkcordcardinfo geometry behind rdcord2cards / bulk2uset / "
+    "uset2bulk (C14); FileOK for arbitrary written files (checked per generated file by the model's own decision "
+    "procedure); op2 DMIG. Findings reported by the oracle: a NEGATIVE value with a three-digit decimal exponent needs 17 "
+    "characters in '{:16.9E}' — wtdmig / wttabled1 then write an over-long field and the reader returns another number.",
+    "technique": "Lean 4 proof (induction over run/line/column/character structure; rational bounds through C12's eParts / "
+    "rheDiv lemmas) + Python-ast translator of format strings and layout constants + exact-text differential "
     "correspondence with pyyeti.nastran.bulk / pyyeti.writer writers and readers",
 }
 
